@@ -144,7 +144,9 @@ def replay(path):
             print(json.dumps(x)[:600])
         print("replayed record %s: %d disagreements" % (beh["record"].get("id"), len(verdicts)))
         return 1 if verdicts else 0
-    req = beh.get("request")
+    req = beh.get("request") or (beh.get("verdict") or {}).get("request")
+    if not req:
+        raise C.ToolError("replay file holds neither a model record nor a driver request")
     events = F.run_drive(binary, SUB, [req], jobs=1)
     lines, owner, fails = F.to_trace([req], events)
     rejects, incomplete, stats = F.validate(wd, PROP, lines, shards=1)
